@@ -24,7 +24,15 @@ PROP = {
             "component": "wswrite",
             "quick": {"gen": [(2500, 12)], "enum": [(2,)]},
             "thorough": {"gen": [(25000, 14)], "enum": [(3,)]},
+        }, {
+            # "no trailing bytes left over from earlier frames" across a reconnect: a session whose flush failed leaves an encoded
+            # frame in the write buffer; the next handshake on the same Stream must start with a clean wire (component of C18)
+            "component": "wshandshake",
+            "quick": {"gen": [(150, 4)]},
+            "thorough": {"gen": [(1200, 5)]},
+            "timeout": 1500,
         }],
+        "keys": ["wswrite.*", "wshandshake.stale-session"],
         "rule": "scripts = a client websocket.Stream attached (hook VerifAttach) to the in-memory transport; max from {0,1,5,125,126,127,200,300,"
                 "1000,4096,65535,65536,66000}; operations Write/WriteFrame/Flush/Close or their Async variants (one mode per script: the stream "
                 "allows one write in flight) with payload sizes 0,1,125,126,127,300,65535,65536,max-1,max,max+1 and random small ones, caller-built "
